@@ -239,10 +239,16 @@ class Interp:
             for t in st.targets:
                 if isinstance(t, ast.Subscript) and not _const_key(t) and not self._is_loopvar_index(t, fr) and not _is_full_slice(t.slice):
                     fr.mask_ctx = unparse(t.slice)
+            saved = None
             try:
+                if fr.mask_ctx is not None and hasattr(self.dom, "refine_for_mask"):
+                    mt = [t for t in st.targets if isinstance(t, ast.Subscript)][0]
+                    saved = self.dom.refine_for_mask(fr.env, self.eval(mt.slice, fr), True)
                 v = self.eval(st.value, fr)
             finally:
                 fr.mask_ctx = None
+                if saved:
+                    fr.env.update(saved)
             for t in st.targets:
                 self.assign(t, v, fr, st)
             return "fall"
@@ -255,9 +261,17 @@ class Interp:
             rhs = self.eval(st.value, fr)
             if isinstance(st.target, ast.Subscript) and not self._is_loopvar_index(st.target, fr) and not _const_key(st.target):
                 # Z[mask] *= -1  ->  where(mask, Z*-1, Z)
-                base_cur = self.eval(st.target.value, fr)
                 mask = self.eval(st.target.slice, fr)
-                newv = self._binop(st.op, base_cur, rhs, st)
+                if hasattr(self.dom, "refine_for_mask"):
+                    saved = self.dom.refine_for_mask(fr.env, mask, True)
+                    cur_true = self.eval(st.target.value, fr)
+                    fr.env.update(saved)
+                    saved = self.dom.refine_for_mask(fr.env, mask, False)
+                    base_cur = self.eval(st.target.value, fr)
+                    fr.env.update(saved)
+                else:
+                    base_cur = cur_true = self.eval(st.target.value, fr)
+                newv = self._binop(st.op, cur_true, rhs, st)
                 val = self.dom.where(mask, newv, self.num(base_cur), st)
                 self.assign(st.target.value, val, fr, st)
                 self._mark_mutated(st.target.value, fr)
@@ -449,11 +463,15 @@ class Interp:
                 self._mark_mutated(base, fr)
                 return
             # masked / indexed store
+            mask = self.eval(target.slice, fr)
+            saved = self.dom.refine_for_mask(fr.env, mask, False) if hasattr(self.dom, "refine_for_mask") else None
             try:
                 old = self.eval(base, fr)
             except Unsupported:
                 old = Ref("undef")
-            mask = self.eval(target.slice, fr)
+            finally:
+                if saved:
+                    fr.env.update(saved)
             val = self.dom.where(mask, self.num(v) if not isinstance(v, (Tup, Phi)) else v, self.num(old), st)
             self.assign(base, val, fr, st)
             self._mark_mutated(base, fr)
